@@ -307,3 +307,10 @@ def bounded_membership_and_addressing(ctx):
         ctx.stats['terms_compared'] += 1
         ctx.check(ix == want, 'bounded#store', 'seq[<out of bounds, restricted to index>] = ...',
                   'bounded stores into seq[%s]: entries that are inside their interval or not selected by index are rewritten' % T.show(ix)[:120], f, st)
+
+
+@rule('C16.i', min_instances=3)
+def statistic_transforms_hit_zero_targets_too(ctx):
+    """with_mean / with_variance / with_spread reach their target through impose_mean / impose_variance / impose_spread, which keep their affine constructions AND their case analysis: the samples come back unchanged only when both the statistic and the target are zero, nan only for degenerate samples - a zero target on ordinary samples must collapse them (shared with C18.b)"""
+    from .c18 import affine_shape
+    affine_shape(ctx)
